@@ -76,6 +76,13 @@ POSES, DELTA, TOL = tm.param("poses"), tm.param("delta"), tm.param("tol")
 S1 = T("slice", const(1), tm.NONE, tm.NONE)
 
 
+def _drop_last(a: T) -> T:
+    """X for X[:-1] (zip stops at the shorter operand anyway)"""
+    if a.op == "sub" and a.args[1] is T("slice", tm.NONE, const(-1), tm.NONE):
+        return a.args[0]
+    return a
+
+
 def _zip_chain(ret: T):
     """ids if ret = [(i, j) for i, j in zip(ids, ids[1:])]"""
     # list(zip(ids, ids[1:])) is the same list of pairs
@@ -83,6 +90,7 @@ def _zip_chain(ret: T):
             is_call_to(ret.args[1][0], "builtins.zip") and \
             len(ret.args[1][0].args[1]) == 2 and not ret.args[1][0].args[2]:
         a, b = ret.args[1][0].args[1]
+        a = _drop_last(a)
         return a if b is tm.sub(a, S1) else None
     pe = per_element(ret)
     if pe is None:
@@ -91,9 +99,16 @@ def _zip_chain(ret: T):
     if conds or not is_call_to(it, "builtins.zip") or len(it.args[1]) != 2:
         return None
     a, b = it.args[1]
+    a0 = a
+    a = _drop_last(a)
     if b is not tm.sub(a, S1):
         return None
     from ..lib import fuse_elems
+    if a is not a0:
+        # zip(ids[:-1], ids[1:]): the same pairs as zip(ids, ids[1:])
+        if elt is T("tuple", T("elem", a0, lid), T("elem", b, lid)):
+            return a
+        return None
     if elt is T("tuple", T("elem", a, lid), T("elem", b, lid)) or \
             elt is fuse_elems(T("tuple", T("elem", a, lid),
                                 T("elem", b, lid))):
@@ -233,22 +248,39 @@ def _by_index(ctx, prog):
     ok = False
     if pe is not None:
         elt, lid, it, conds = pe
+        if is_call_to(it, "builtins.zip") and len(it.args[1]) == 2 and \
+                not it.args[2]:
+            # for i, j in zip(ids, ids + delta): j is i + delta
+            from ..lib import push_elem
+            it = it.args[1][0]
+            elt = push_elem(elt)
+            conds = tuple(push_elem(c) for c in conds)
         i = T("elem", it, lid)
         rng = is_call_to(it, "numpy.arange", "builtins.range") and \
             it.args[1] and it.args[1][0] is n and len(it.args[1]) == 1
         j = T("binop", "Add", i, DELTA)
         guard = [norm_cmp(c) for c in conds]
         ok = rng and elt is T("tuple", i, j) and guard == [(j, "Lt", n)]
-    ctx.ob("C10.2", f, ok,
-           "frames/all-pairs: (i, i+delta) for every i with i+delta < N"
-           if ok else f"frames/all-pairs pairs are {fmt(r.ret)}",
-           key="C10.2:index:all-pairs", value=fmt(r.ret))
+    if pe is None:
+        ctx.undecidable("C10.2", f, f"frames/all-pairs: the pairs are not "
+                        f"built by one comprehension over the pose indices: "
+                        f"{fmt(r.ret)[:120]}")
+    else:
+        ctx.ob("C10.2", f, ok,
+               "frames/all-pairs: (i, i+delta) for every i with i+delta < N"
+               if ok else f"frames/all-pairs pairs are {fmt(r.ret)}",
+               key="C10.2:index:all-pairs", value=fmt(r.ret))
     r = Interp(prog).run(f, {"all_pairs": const(False)})
     ids = _zip_chain(r.ret)
     ok = ids is not None and is_call_to(ids, "numpy.arange",
                                         "builtins.range") and \
         len(ids.args[1]) == 3 and tm.is_const(ids.args[1][0], 0) and \
         ids.args[1][1] is n and ids.args[1][2] is DELTA
+    if ids is None:
+        ctx.undecidable("C10.1", f, f"frames/consecutive: the pairs are not "
+                        f"read as zip(ids, ids[1:]) over one id list: "
+                        f"{fmt(r.ret)[:120]}")
+        return
     ctx.ob("C10.2", f, ok,
            "frames/consecutive: chain over 0, delta, 2*delta, ..." if ok
            else f"frames/consecutive pairs are {fmt(r.ret)}",
@@ -307,10 +339,24 @@ def _by_path(ctx, prog):
     r = Interp(prog).run(f, dict(extra, all_pairs=const(False)))
     ids = _zip_chain(r.ret)
     ok = ids is not None and ids.op == "loopout"
+    marks = [x for x in r.ret.walk()
+             if is_call_to(x, "numpy.searchsorted", ".searchsorted") and any(
+                 is_call_to(y, "numpy.arange", "builtins.range")
+                 for a_ in x.args[1] for y in a_.walk()) and any(
+                 y is DELTA for a_ in x.args[1] for y in a_.walk())]
+    if not ok and marks:
+        ctx.ob("C10.1", f, False,
+               "meters/consecutive: the ids are looked up at the absolute "
+               "multiples delta, 2*delta, ... of the path length "
+               f"({fmt(marks[0])[:80]}): the path is not restarted at each "
+               "selected pose, so what a selected pose overshoots is carried "
+               "into the next pair (pairs shorter than delta)",
+               key="C10.1:path:chain")
+        return
     ctx.ob("C10.1", f, ok,
            "meters/consecutive: pairs = zip(ids, ids[1:])" if ok else
            f"meters/consecutive: pairs are not a chain over one id list: "
-           f"{fmt(r.ret)}", key="C10.1:path:chain")
+           f"{fmt(r.ret)}", key="C10.1:path:chain", evidence=False)
     if ok:
         name, lid, init, upd = ids.args
         loop = [e for e in r.of_kind("loop") if e.data["lid"] == lid][0]
@@ -375,7 +421,7 @@ def _by_path(ctx, prog):
                "meters/consecutive: ids are appended in increasing loop "
                "order over all poses" if ok else
                f"meters/consecutive: id list update is {fmt(upd)}",
-               key="C10.1:path:ids-increasing")
+               key="C10.1:path:ids-increasing", evidence=False)
         if ok:
             cond = _strip_prefix(acc[0][0], loop.live, lid)
             cmps = comparisons(cond)
@@ -493,7 +539,9 @@ def _by_path(ctx, prog):
            "meters/all-pairs: accept iff |path - delta| <= tol (inclusive)"
            if ok3 else f"meters/all-pairs accept test: "
                        f"{[(fmt(a), r_, fmt(b)) for a, r_, b in cmps]}",
-           key="C10.3:path:all-pairs")
+           key="C10.3:path:all-pairs",
+           evidence=len(cmps) == 1 and cmps[0][2] is TOL and is_call_to(
+               cmps[0][0], "numpy.abs", "builtins.abs"))
     # j = (i + 1) + argmin_k | D[i+1+k] - D[i] - delta |, and the tested
     # value is that minimum — decided on linear normal forms, so the order of
     # the subtractions and named intermediate arrays do not matter
@@ -746,12 +794,17 @@ def _by_angle(ctx, prog):
         comp = exts[0].data["args"][0]
         masks = [x for x in comp.walk() if is_call_to(x, "numpy.argwhere", "numpy.flatnonzero")]
         okm = False
+        ev_band = False
         if len(masks) == 1 and masks[0].args[1]:
             m = masks[0].args[1][0]
             parts = (m.args[1], m.args[2]) if m.op == "binop" and \
                 m.args[0] == "BitAnd" else None
+            if parts is None and is_call_to(m, "numpy.logical_and") and \
+                    len(m.args[1]) == 2:
+                parts = tuple(m.args[1])
             if parts:
                 ns = [norm_cmp(p) for p in parts]
+                ev_band = bool(all(ns))
                 d, t = conv(DELTA), conv(TOL)
                 lo = T("binop", "Sub", d, t)
                 hi_ = T("binop", "Add", d, t)
@@ -766,10 +819,11 @@ def _by_angle(ctx, prog):
                if okm else
                f"[degrees={deg}] angle/all-pairs band test deviates: "
                f"{fmt(masks[0].args[1][0]) if masks else fmt(comp)}",
-               key=f"C10.3:angle:all-pairs")
-        ctx.ob("C10.7", f, okm,
-               f"[degrees={deg}] delta and tol are converted with the same "
-               f"function", key=f"C10.7:same-conversion:{deg}")
+               key=f"C10.3:angle:all-pairs", evidence=ev_band)
+        if ev_band or okm:
+            ctx.ob("C10.7", f, okm,
+                   f"[degrees={deg}] delta and tol are converted with the "
+                   f"same function", key=f"C10.7:same-conversion:{deg}")
         if not deg:
             _all_pairs_angle_search(ctx, f, r, exts[0], masks)
 
